@@ -376,11 +376,10 @@ theorem nodeOk_mono {a m : AstMap} (h : Ext a m) {p s : T} (hn : nodeOk a p s = 
   simp only [nodeOk, Bool.and_eq_true] at hn ⊢
   refine ⟨hn.1, ?_⟩
   have h2 := hn.2
-  split at h2
-  · rename_i hi; simp only [hi]; exact h2
-  · rename_i f hi
-    simp only [hi]
-    simp only [Bool.or_eq_true, Bool.and_eq_true] at h2 ⊢
+  cases hi : identField p.kind with
+  | none => simp only [hi] at h2 ⊢; exact h2
+  | some f =>
+    simp only [hi, Bool.or_eq_true, Bool.and_eq_true] at h2 ⊢
     rcases h2 with ((h2 | h2) | h2) | h2
     · exact Or.inl (Or.inl (Or.inl ⟨h2.1, hasBind_mono h h2.2⟩))
     · exact Or.inl (Or.inl (Or.inr h2))
@@ -425,19 +424,20 @@ theorem embAt_mono {a m : AstMap} (h : Ext a m) :
     simp only [Bool.and_eq_true, decide_eq_true_eq] at he ⊢
     refine ⟨h.maps _ _ he.1, ?_⟩
     have h2 := he.2
-    split at h2
-    · rename_i hr; simp only [hr]
-    · rename_i k hr; simp only [hr]; exact h.exps _ h2
-    · rename_i hr; simp only [hr]
+    cases hr : role (T.mk kind field flds kids) with
+    | wildcard => simp only []
+    | expPh k => simp only [hr] at h2 ⊢; exact h.exps _ h2
+    | wrapper =>
+      simp only [hr] at h2 ⊢
       exact embKids_mono h kids ih pp sp s true 0 0 [] h2
-    · rename_i hr; simp only [hr]
-      simp only [Bool.and_eq_true, Bool.or_eq_true, decide_eq_true_eq] at h2 ⊢
+    | concrete =>
+      simp only [hr, Bool.and_eq_true, Bool.or_eq_true, decide_eq_true_eq] at h2 ⊢
       refine ⟨nodeOk_mono h h2.1, ?_⟩
       rcases h2.2 with h3 | h3
       · exact Or.inl h3
       · exact Or.inr (embKids_mono h kids ih pp sp s _ 0 0 [] h3)
 
-theorem expSomewhereL_mono {a m : AstMap} (h : Ext a m) (k : String) (v : Path) (kids : List T)
+theorem expSomewhereL_mono {a m : AstMap} (k : String) (v : Path) (kids : List T)
     (hIH : ∀ c ∈ kids, ∀ pp, expSomewhere a k v pp c = true → expSomewhere m k v pp c = true) (pp : Path) :
     ∀ i, expSomewhereL a k v pp i kids = true → expSomewhereL m k v pp i kids = true := by
   induction kids with
@@ -460,6 +460,6 @@ theorem expSomewhere_mono {a m : AstMap} (h : Ext a m) (k : String) (v : Path) :
     simp only [Bool.or_eq_true, Bool.and_eq_true, decide_eq_true_eq] at hh ⊢
     rcases hh with hh | hh
     · exact Or.inl ⟨hh.1, h.maps _ _ hh.2⟩
-    · exact Or.inr (expSomewhereL_mono h k v kids ih pp 0 hh)
+    · exact Or.inr (expSomewhereL_mono k v kids ih pp 0 hh)
 
 end Pedal.Cait
